@@ -273,8 +273,8 @@ func moreC16(r *Run) {
 	// constructors keep their arguments
 	for _, w := range []struct{ fn, want string }{
 		{"store/prefix.NewStore", "parent=param:parent, prefix=param:prefix"},
-		{"store/gaskv.NewStore", "gasMeter=param:gasMeter, gasConfig=param:gasConfig, parent=param:parent"},
-		{"store/tracekv.NewStore", "parent=param:parent, writer=param:writer, context=param:tc"},
+		{"store/gaskv.NewStore", "gasConfig=param:gasConfig, gasMeter=param:gasMeter, parent=param:parent"},
+		{"store/tracekv.NewStore", "context=param:tc, parent=param:parent, writer=param:writer"},
 		{"store/cachekv.NewStore", "parent=param:parent"},
 	} {
 		if f := r.fn(w.fn); f != nil {
